@@ -471,7 +471,7 @@ func (p *c07) Shrink(scAny any) []any { return nil }
 
 func (p *c07) Info() PropInfo {
 	return PropInfo{
-		Rule: "enumeration: TLS policy {mandatory, opportunistic, none, implicit} x 15 auth configurations (none, all 13 SMTPAuthType values, custom PLAIN/LOGIN Auth values) x host {mx.sim.example, localhost, 127.0.0.1 (thorough: ::1)} x server behaviour {TLS fine; STARTTLS not advertised (and refused / nevertheless accepted); STARTTLS answered 454 / 554 / garbage / disconnect; certificate for another name / from an untrusted issuer / garbage bytes / stall instead of a handshake; EHLO refused} x advertised AUTH lists x the way the policy reaches the Client {WithTLSPolicy, SetTLSPolicy after a weaker policy, SetTLSPortPolicy on a Client with an explicit port and a weaker policy, WithPort then WithTLSPortPolicy, WithTLSPortPolicy twice} x {alone, with a sibling Client created for the host name the wrong certificate is valid for} x TLS 1.2 / 1.3; implicit TLS additionally with a dial function that returns a plain connection (quick: a third of the 1.2 cases and two AUTH lists per cell), each for DialAndSend of one message with unique high-entropy credentials; every run with a connection is non-trivial; distinct = distinct labels",
+		Rule: "enumeration: TLS policy {mandatory, opportunistic, none, implicit} x 15 auth configurations (none, all 13 SMTPAuthType values, custom PLAIN/LOGIN Auth values) x host {mx.sim.example, localhost, 127.0.0.1 (thorough: ::1)} x server behaviour {TLS fine; STARTTLS not advertised (and refused / nevertheless accepted); STARTTLS answered 454 / 554 / garbage / disconnect; certificate for another name / from an untrusted issuer / garbage bytes / stall instead of a handshake; EHLO refused} x advertised AUTH lists x the way the policy reaches the Client {WithTLSPolicy, SetTLSPolicy after a weaker policy, SetTLSPortPolicy on a Client with an explicit port and a weaker policy, WithPort then WithTLSPortPolicy, WithTLSPortPolicy twice} x {alone, with a sibling Client created for the host name the wrong certificate is valid for} x TLS 1.2 / 1.3; implicit TLS additionally with a dial function that returns a plain connection (quick: a third of the 1.2 cases and two AUTH lists per cell), plus the caller switching the policy between two dials (two DialAndSend calls, or DialWithContext twice without Close and then Send); each for DialAndSend of one message with unique high-entropy credentials; every run with a connection is non-trivial; distinct = distinct labels",
 		Assumptions: []string{"cleartext = every byte the client wrote before the line STARTTLS that the server answered with 220 (inclusive); everything after it must be TLS records",
 			"implicit TLS is exercised through a dial function that wraps the simulated connection in tls.Client; go-mail's own tls.Dialer path needs a real socket and is not covered",
 			"an XOAUTH2 token under an explicit no-TLS policy is recorded, not judged (the statement names PLAIN and LOGIN)"},
